@@ -1,1 +1,200 @@
-//! placeholder
+//! `enum ident` — C13: rule identity.  Every rule over a small string universe is
+//! grouped by `Rule::get_ticket()` and by canonical form (set of targets, set of
+//! sources, command lines in order); the two partitions must be identical — which is
+//! equivalent to checking all pairs.
+use std::collections::{BTreeMap, BTreeSet, HashMap};
+
+use serde_json::{json, Value};
+
+use crate::history::{History, RuleHistory};
+use crate::memsys::{Cfg, ClockModel, Fs, MemSystem};
+use crate::report::{Report, Violation};
+use crate::rule::{self, Rule};
+
+fn lists(sigma: &[&str], max_len: usize, allow_empty: bool, distinct: bool) -> Vec<Vec<String>>
+{
+    let mut out: Vec<Vec<String>> = vec![];
+    if allow_empty { out.push(vec![]); }
+    let mut cur: Vec<Vec<String>> = vec![vec![]];
+    for _ in 0..max_len
+    {
+        let mut next = vec![];
+        for c in &cur
+        {
+            for s in sigma
+            {
+                if distinct && c.iter().any(|x| x == s) { continue; }
+                let mut n = c.clone();
+                n.push(s.to_string());
+                next.push(n);
+            }
+        }
+        out.extend(next.iter().cloned());
+        cur = next;
+    }
+    out
+}
+
+fn canon(r: &Rule) -> (Vec<String>, Vec<String>, Vec<String>)
+{
+    let mut t = r.targets.clone();
+    t.sort();
+    t.dedup();
+    let mut s = r.sources.clone();
+    s.sort();
+    s.dedup();
+    (t, s, r.command.clone())
+}
+
+fn render(r: &Rule) -> String
+{
+    let mut s = String::new();
+    for t in &r.targets { s.push_str(t); s.push('\n'); }
+    s.push_str(":\n");
+    for t in &r.sources { s.push_str(t); s.push('\n'); }
+    s.push_str(":\n");
+    for t in &r.command { s.push_str(t); s.push('\n'); }
+    s.push_str(":\n");
+    s
+}
+
+pub fn run(rep: &mut Report, tier: &str)
+{
+    let thorough = tier == "thorough";
+    // adversarial near-misses: a string moved across a section boundary, ':' and spaces inside
+    // names, split / merged command lines, permuted lists
+    let sigma: Vec<&str> = if thorough { vec!["a", "b", "a b", "a:", ":a", "a/b", ";", "\ta"] } else { vec!["a", "b", "a b", "a:", ":a", "a/b"] };
+    let path_sigma: Vec<&str> = sigma.iter().cloned().filter(|s| *s != ";" && !s.starts_with('\t')).collect();
+    let ts = lists(&path_sigma, 2, false, true);
+    let ss = lists(&path_sigma, 2, false, true);
+    let cs = lists(&sigma, 3, true, false);
+    let mut by_ticket: HashMap<String, (Vec<String>, Vec<String>, Vec<String>)> = HashMap::new();
+    let mut by_canon: HashMap<(Vec<String>, Vec<String>, Vec<String>), String> = HashMap::new();
+    let mut n = 0u64;
+    let mut bad: BTreeMap<String, (Rule, Rule)> = BTreeMap::new();
+    let mut first_of_canon: HashMap<(Vec<String>, Vec<String>, Vec<String>), Rule> = HashMap::new();
+    let mut first_of_ticket: HashMap<String, Rule> = HashMap::new();
+    for t in &ts
+    {
+        for s in &ss
+        {
+            for c in &cs
+            {
+                let r = Rule::new(t.clone(), s.clone(), c.clone());
+                let tk = r.get_ticket().human_readable();
+                let cn = canon(&r);
+                n += 1;
+                match by_ticket.get(&tk)
+                {
+                    Some(c0) if *c0 != cn =>
+                    {
+                        bad.entry("two different rules share one identity".into()).or_insert((first_of_ticket[&tk].clone(), r.clone()));
+                    },
+                    Some(_) => {},
+                    None => { by_ticket.insert(tk.clone(), cn.clone()); first_of_ticket.insert(tk.clone(), r.clone()); },
+                }
+                match by_canon.get(&cn)
+                {
+                    Some(t0) if *t0 != tk =>
+                    {
+                        bad.entry("the same rule (up to order of target/source lines) gets two identities".into()).or_insert((first_of_canon[&cn].clone(), r.clone()));
+                    },
+                    Some(_) => {},
+                    None => { by_canon.insert(cn.clone(), tk.clone()); first_of_canon.insert(cn, r); },
+                }
+            }
+        }
+    }
+    // through the parser: permuted target / source lines keep the identity; history file is named by it
+    let mut parsed = 0u64;
+    let sys = MemSystem::new({ let mut fs = Fs::new(); fs.put(".ruler/history/.keep", crate::memsys::bytes(""), 1, None); fs }, Cfg::plain(ClockModel::Strict));
+    for t in &ts
+    {
+        for s in &ss
+        {
+            for c in cs.iter().filter(|c| c.len() <= 1)
+            {
+                let r = Rule::new(t.clone(), s.clone(), c.clone());
+                let mut rev = r.clone();
+                rev.targets.reverse();
+                rev.sources.reverse();
+                let p1 = rule::parse("f".into(), render(&r));
+                let p2 = rule::parse("f".into(), render(&rev));
+                parsed += 2;
+                match (p1, p2)
+                {
+                    (Ok(a), Ok(b)) if a.len() == 1 && b.len() == 1 =>
+                    {
+                        if a[0].get_ticket() != b[0].get_ticket() || a[0].get_ticket() != r.get_ticket()
+                        {
+                            bad.entry("re-ordering target/source lines in the rules file changes the identity".into()).or_insert((r.clone(), rev.clone()));
+                        }
+                        if canon(&a[0]) != canon(&r)
+                        {
+                            bad.entry("the parsed rule differs from the written one".into()).or_insert((r.clone(), a[0].clone()));
+                        }
+                    },
+                    (a, _) =>
+                    {
+                        // strings were chosen to be parser-producible
+                        if c.iter().all(|l| l != ":" && !l.is_empty())
+                        {
+                            bad.entry(format!("a well-formed single rule did not parse to one rule: {:?}", a.map(|v| v.len()))).or_insert((r.clone(), rev.clone()));
+                        }
+                    },
+                }
+            }
+        }
+    }
+    // history file name == identity
+    let mut named = 0u64;
+    for (tk, r) in first_of_ticket.iter().take(2000)
+    {
+        let mut h = History::new(sys.clone(), ".ruler/history");
+        let _ = h.write_rule_history(r.get_ticket(), RuleHistory::new());
+        named += 1;
+        if !sys.with(|i| i.fs.is_file(&format!(".ruler/history/{}", tk)))
+        {
+            bad.entry("the rule history file is not named after the rule identity".into()).or_insert((r.clone(), r.clone()));
+        }
+    }
+    rep.set("states", json!(by_canon.len()));
+    rep.set("transitions", json!(n));
+    rep.set("traces_validated_against_impl", json!(n + parsed + named));
+    rep.set("evaluations", json!(n));
+    rep.set("distinct_identities", json!(by_ticket.len()));
+    rep.set("distinct_canonical_forms", json!(by_canon.len()));
+    rep.set("distinct_nontrivial", json!(by_canon.len()));
+    rep.set("pairs_decided", json!((n as u128 * (n as u128 - 1) / 2).to_string()));
+    rep.set("rules_through_parser", json!(parsed));
+    rep.set("history_files_named", json!(named));
+    rep.set("exhaustive", json!(true));
+    rep.set("rule", json!("every rule (T,S,C): T,S non-empty lists of <=2 distinct strings in both orders, C a list of 0..3 strings, over the stated alphabet; partition by ticket must equal partition by (set T, set S, C)"));
+    rep.set("alphabet", json!(sigma));
+    rep.push_sample(json!({"targets": ["a", "a b"], "sources": ["a:"], "command": ["a", ":a"]}));
+    rep.push_sample(json!({"targets": ["a"], "sources": ["b", "a/b"], "command": []}));
+    for (what, (a, b)) in bad
+    {
+        rep.violation(Violation
+        {
+            property: "C13".into(),
+            signature: format!("C13:ident:{}", what),
+            summary: format!("{}: {:?} / {:?}", what, a, b),
+            replay: json!({"engine": "ident", "a": {"t": a.targets, "s": a.sources, "c": a.command}, "b": {"t": b.targets, "s": b.sources, "c": b.command}}),
+        });
+    }
+}
+
+pub fn replay(v: &Value) -> i32
+{
+    let get = |x: &Value| -> Rule
+    {
+        Rule::new(serde_json::from_value(x["t"].clone()).unwrap_or_default(), serde_json::from_value(x["s"].clone()).unwrap_or_default(), serde_json::from_value(x["c"].clone()).unwrap_or_default())
+    };
+    let a = get(&v["a"]);
+    let b = get(&v["b"]);
+    let same_id = a.get_ticket() == b.get_ticket();
+    let same_rule = canon(&a) == canon(&b);
+    println!("a = {:?}\nb = {:?}\nsame identity: {}; same rule up to order of targets/sources: {}", a, b, same_id, same_rule);
+    if same_id != same_rule { 1 } else { 0 }
+}
